@@ -119,7 +119,8 @@ func (l *Lexer) readLeadingComments() {
 				l.hadNewlineBefore = true
 				l.ReadChar()
 			}
-			text := strings.TrimRight(comment.String(), " ")
+			// trailing blanks and the CR of a CRLF line end are not part of the comment
+			text := strings.TrimRight(comment.String(), " \r")
 			if text == "" {
 				text = " " // the empty string stands for a blank line: an empty comment stays a comment
 			}
